@@ -26,6 +26,18 @@ pub fn engines() -> Vec<EngineDef> {
             scenarios: crate::engine_crash::scenarios,
             scenario: crate::engine_crash::scenario,
         },
+        EngineDef {
+            name: "heap-sim",
+            property: "C03",
+            scenarios: crate::engine_heap::scenarios,
+            scenario: crate::engine_heap::scenario,
+        },
+        EngineDef {
+            name: "gc-sim",
+            property: "C03",
+            scenarios: crate::engine_gc::scenarios,
+            scenario: crate::engine_gc::scenario,
+        },
     ]
 }
 
